@@ -15,6 +15,7 @@ EXPLANATION = ("range-bound, sanitiser, subtraction and ordering rules: host ran
                "construction is dominated by a pool-membership test or draws from an iteration over the pool")
 ASSUMPTIONS = ["not decided: set equality Allowed = D(config, ...) over arbitrary nested configurations; sibling reservations "
                "(the manual is silent)", "arithmetic safety of the range expressions for every accepted prefix length is C19's clause"]
+EXPLANATION += "; also: the host offset is added to the network address; a policy's three address sources accumulate; whether a reserving policy applies at all is C11's walk (included)"
 EXTRA_CONFIGS = ["dhcp"]
 
 
